@@ -101,6 +101,8 @@ pub struct Mon {
     pub pause_window: HashMap<Pubkey, (i64, i64)>,
     // C20 (venue): number of pass-through operations seen per bank
     pub venue_ops: HashMap<Pubkey, u64>,
+    /// program panics (abort the transaction): (instruction, message | location | first program frame) -> count
+    pub panic_sites: HashMap<(Kind, String), u64>,
 }
 
 /// Program error codes (Anchor custom codes) the monitors need to recognise.
@@ -177,6 +179,9 @@ impl Mon {
 
     pub fn on_tx_commit(&mut self, w: &World, ixs: &[solana_sdk::instruction::Instruction], out: &crate::chain::TxOut) {
         self.tx_committed += 1;
+        if cfg!(debug_assertions) {
+            self.r.count("wrapcheck.committed_transactions_observed_under_debug_assertions");
+        }
         self.rcv_started_in_tx.clear();
         self.on_commit(w);
         if self.on.iter().any(|p| matches!(*p, "C10" | "C11" | "C12")) {
@@ -193,6 +198,24 @@ impl Mon {
     /// A transaction (or simulation) that was rejected: accept/reject monitors look at it.
     pub fn on_reject(&mut self, w: &World, ixs: &[solana_sdk::instruction::Instruction], out: &crate::chain::TxOut) {
         self.tx_rejected += 1;
+        if cfg!(debug_assertions) {
+            self.r.count("wrapcheck.rejected_transactions_observed_under_debug_assertions");
+        }
+        for ev in out.events.iter().filter(|e| e.panicked) {
+            let site = ev.panic_site.clone().unwrap_or_else(|| "unknown".into());
+            // Overflow sanitizer (only in the `dbgassert` build): the `fixed` crate's operators and
+            // `from_num` check overflow under debug assertions and wrap silently in the deployed
+            // profile. Such a panic marks a place where the deployed program would have gone on
+            // with a wrapped value.
+            if cfg!(debug_assertions) && site.contains("fixed-") && (site.starts_with("overflow") || site.contains("overflow")) {
+                self.r.count(&format!("wrapcheck.silent_wrap_site/{}/{}", Kind::of(&ev.data).name(), site));
+                let venue_math = ["price", "_mocks", "adjust_", "scaled_supplies", "collateral_to_liquidity", "liquidity_to_collateral"].iter().any(|k| site.contains(k));
+                if venue_math {
+                    self.r.violate("C20", &format!("C20/wrap/{}", site.rsplit(" | ").next().unwrap_or("")), format!("under debug assertions the fixed-point operation overflowed ({}); the deployed profile wraps silently here instead of reporting an error", site));
+                }
+            }
+            *self.panic_sites.entry((Kind::of(&ev.data), site)).or_insert(0) += 1;
+        }
         self.bracket.clear();
         self.rcv_started_in_tx.clear();
         if let (Some(c), Some(ev)) = (out.custom_code(), out.events.iter().rev().find(|e| e.program == MFI && !e.ok())) {
